@@ -26,6 +26,10 @@
 #define NB 3		/* BOUND: host file of at most 3 blocks = 12 bytes */
 #endif
 #define FLEN (NB * BS)
+#ifndef START
+#define START 0		/* discrete configuration is compile-time (guide rule 2): chunk start offset */
+#endif
+/* -DPARTIAL: the writer may accept only part of a request; -DFAULTS: read/seek/write failures injected */
 
 struct vf_in {
 	unsigned char src[FLEN];
@@ -91,9 +95,13 @@ errcode_t ext2fs_file_write(ext2_file_t file, const void *buf, unsigned int nbyt
 		*written = 0;
 		return 0;
 	}
+#ifdef PARTIAL
 	take = 1 + IN.part[(vf_nwrite - 1) % FLEN] % BS;
 	if (take > nbytes)
 		take = nbytes;
+#else
+	take = nbytes;
+#endif
 	for (k = 0; k < BS; k++) {
 		int hit = 0;
 		if (k >= take)
@@ -124,13 +132,20 @@ int main(void)
 
 	VF_INPUT(IN);
 	ASSUME(IN.size <= FLEN);
-	/* ASSUME: 0 <= start <= FLEN, start <= end < start + 2*65536 (at most two buffer rounds) */
-	ASSUME(IN.start >= 0 && IN.start <= FLEN && IN.end >= IN.start && IN.end < IN.start + 2 * 65536);
-#ifdef ALIGNED
-	/* ASSUME: ALIGNED: start is a multiple of the block size (try_lseek_copy rounds it; the plain copy passes 0) */
-	ASSUME(IN.start % BS == 0);
-#endif
+	/* ASSUME: start = START (one query per value); start <= end < start + 2*65536 (at most two buffer rounds) */
+	IN.start = START;
+	ASSUME(IN.end >= IN.start && IN.end < IN.start + 2 * 65536);
+#ifdef FAULTS
+	/* one fault class per query: 1 read fails, 2 the k-th seek fails, 3 the k-th write fails, 4 the k-th write accepts nothing (k symbolic) */
+	IN.read_fail = (FAULTS == 1);	/* concrete: the no-fault case is the other queries' */
+	if (FAULTS != 2) IN.seek_fail_at = 0;
+	if (FAULTS != 3) IN.write_fail_at = 0;
+	if (FAULTS != 4) IN.write_zero_at = 0;
 	ASSUME(IN.seek_fail_at >= 0 && IN.write_fail_at >= 0 && IN.write_zero_at >= 0);
+#else
+	/* ASSUME: without -DFAULTS: pread64, llseek and write succeed */
+	IN.read_fail = IN.seek_fail_at = IN.write_fail_at = IN.write_zero_at = 0;
+#endif
 	fs_s.blocksize = BS;
 
 	ret = copy_file_chunk(&fs_s, 3, (ext2_file_t) &vf_filedummy, (off_t) IN.start, (off_t) IN.end, buf, zerobuf);
